@@ -266,7 +266,7 @@ func (g *Gen) instr(b *ssa.BasicBlock, in ssa.Instruction) {
 		g.assignHeap("alloc", "(atime "+arr+")")
 		et := v.Type().Underlying().(*types.Slice).Elem()
 		ah := g.arrHeap(et)
-		g.guard(eq("(select "+g.heap(ah)+" "+arr+")", "((as const (Array Int "+string(sortOf(et))+")) "+zeroOf(sortOf(et))+")"))
+		g.guard(g.zeroArray("(select "+g.heap(ah)+" "+arr+")", sortOf(et)))
 		g.guard(and(eq("(sl_arr "+r+")", arr), eq("(sl_off "+r+")", "0"), eq("(sl_len "+r+")", ln), eq("(sl_cap "+r+")", cp)))
 	case *ssa.MakeMap:
 		r := g.v(v)
@@ -354,6 +354,15 @@ func (g *Gen) implicitIndex(v *ssa.IndexAddr) bool {
 	return exact && i >= 0 && i < at.Len()
 }
 
+// zeroArray states that an (Array Int s) term holds the zero value everywhere. Constant-array
+// literals need a value (cvc5 rejects an uninterpreted constant), so Str / Slc arrays use a quantifier.
+func (g *Gen) zeroArray(arr string, s Sort) string {
+	if s == SInt || s == SBool {
+		return eq(arr, "((as const (Array Int "+string(s)+")) "+zeroOf(s)+")")
+	}
+	return "(forall ((i Int)) (! (= (select " + arr + " i) " + zeroOf(s) + ") :pattern ((select " + arr + " i))))"
+}
+
 func (g *Gen) valField(st types.Type, fld *types.Var, x string) string {
 	fn := sym("vfld." + typeKey(st) + "." + fld.Name())
 	g.declare(fn, "(Int) "+string(sortOf(fld.Type())))
@@ -396,7 +405,7 @@ func (g *Gen) zeroInitD(r string, t types.Type, depth int) {
 	case *types.Array:
 		h := g.arrHeap(u.Elem())
 		if !isStructT(u.Elem()) {
-			g.guard(eq("(select "+g.heap(h)+" "+r+")", "((as const (Array Int "+string(sortOf(u.Elem()))+")) "+zeroOf(sortOf(u.Elem()))+")"))
+			g.guard(g.zeroArray("(select "+g.heap(h)+" "+r+")", sortOf(u.Elem())))
 		}
 	default:
 		h := g.cellHeap(t)
@@ -805,6 +814,7 @@ func (g *Gen) lookup(v *ssa.Lookup) {
 		return
 	}
 	mt := v.X.Type().Underlying().(*types.Map)
+	g.forbidCheck(v.X.Type(), k, v.Pos())
 	has, val := g.mapHeaps(mt)
 	present := and(not(eq(x, "0")), "(select (select "+g.heap(has)+" "+x+") "+k+")")
 	value := "(select (select " + g.heap(val) + " " + x + ") " + k + ")"
@@ -821,9 +831,21 @@ func (g *Gen) lookup(v *ssa.Lookup) {
 	g.guard(implies(present, g.typeFacts(r, mt.Elem())))
 }
 
+// forbidCheck generates the "reads" obligation of a forbidden-key rule.
+func (g *Gen) forbidCheck(mapT types.Type, key string, pos token.Pos) {
+	for _, f := range g.forbid {
+		if typeKey(mapT) != f.MapType {
+			continue
+		}
+		txt := g.srcOf(pos, "index")
+		g.oblige("reads", txt, "not-"+f.Key, []string{g.prop}, false, not(eq(key, g.strLit(f.Key))), pos)
+	}
+}
+
 func (g *Gen) mapUpdate(v *ssa.MapUpdate) {
 	m := g.v(v.Map)
 	k := g.v(v.Key)
+	g.forbidCheck(v.Map.Type(), k, v.Pos())
 	mt := v.Map.Type().Underlying().(*types.Map)
 	has, val := g.mapHeaps(mt)
 	if _, ok := v.Map.(*ssa.MakeMap); !ok {
@@ -848,6 +870,11 @@ func (g *Gen) next(v *ssa.Next) {
 		return
 	}
 	mt := rng.X.Type().Underlying().(*types.Map)
+	for _, f := range g.forbid {
+		if typeKey(rng.X.Type()) == f.MapType {
+			g.oblige("reads", "range", "not-"+f.Key, []string{g.prop}, false, "false", v.Pos())
+		}
+	}
 	has, val := g.mapHeaps(mt)
 	tt := v.Type().(*types.Tuple)
 	k := g.tupleComp(v, 1)
